@@ -107,6 +107,9 @@ type Exec struct {
 	typeIDs  map[string]int
 	quant    int
 	nonil    int
+	lawMode  bool
+	curLoop  *loopData
+	calls    []*callRec
 	callSeq  int
 	usedContracts map[string]bool
 	genOwners map[*GenFunc]*FuncInfo
